@@ -128,9 +128,41 @@ func (i nfIn) String() string {
 		i.hdrErr, i.fin, i.op, i.masked, i.frag, i.skip, i.checkUTF8, i.prevText, i.crNil, i.nExt, i.maxKind, i.onInter, i.onCont)
 }
 
+// refTo reports whether v (possibly wrapped in an interface) is a pointer to
+// the sub-object of o at path.
+func refTo(v fold.Val, o *fold.Obj, path ...int) bool {
+	if i, ok := v.(fold.Iface); ok {
+		v = i.V
+	}
+	r, ok := v.(fold.Ref)
+	if !ok || r.O != o || len(r.Path) != len(path) {
+		return false
+	}
+	for i := range path {
+		if r.Path[i] != path[i] {
+			return false
+		}
+	}
+	return true
+}
+
+// isRefIface reports whether v is an interface holding a pointer to a whole object.
+func isObjRef(v fold.Val) (*fold.Obj, bool) {
+	if i, ok := v.(fold.Iface); ok {
+		v = i.V
+	}
+	r, ok := v.(fold.Ref)
+	if !ok || len(r.Path) != 0 {
+		return nil, false
+	}
+	return r.O, true
+}
+
 type nfPath struct {
-	in nfIn
-	p  *fold.Path
+	in                             nfIn
+	p                              *fold.Path
+	recv                           *fold.Obj
+	frameV, utf8SourceV, crV, crRV fold.Val
 	// final receiver state (rendered)
 	rawR, rawN, frame, state, opCode, utf8Source, utf8State, cr string
 	crR, crMask, crPos                                          string
@@ -332,7 +364,9 @@ func (c *Ctx) foldNextFrame(rule string) ([]nfPath, *readerLayout) {
 				recv = mm.NewObj("reader", st)
 				return []fold.Val{fold.Ref{O: recv}}
 			}, func(mm *fold.Machine, p *fold.Path) {
-				np := nfPath{in: cur, p: p}
+				np := nfPath{in: cur, p: p, recv: recv}
+				np.frameV = mm.Load(fold.Ref{O: recv, Path: []int{L.frame}})
+				np.utf8SourceV = mm.Load(fold.Ref{O: recv, Path: []int{L.utf8, L.utf8Source}})
 				ld := func(path ...int) string { return fold.Show(mm.Load(fold.Ref{O: recv, Path: path})) }
 				np.rawR, np.rawN = ld(L.raw, 0), ld(L.raw, 1)
 				np.frame = ld(L.frame)
@@ -342,9 +376,13 @@ func (c *Ctx) foldNextFrame(rule string) ([]nfPath, *readerLayout) {
 				np.utf8State = ld(L.utf8, L.utf8State)
 				crv := mm.Load(fold.Ref{O: recv, Path: []int{L.cr}})
 				np.cr = fold.Show(crv)
+				np.crV = crv
 				if r, ok := crv.(fold.Ref); ok {
+					np.crRV = mm.Load(fold.Ref{O: r.O, Path: append(append([]int{}, r.Path...), L.crR)})
 					np.crR = fold.Show(mm.Load(fold.Ref{O: r.O, Path: append(append([]int{}, r.Path...), L.crR)}))
-					np.crMask = fold.Show(mm.Load(fold.Ref{O: r.O, Path: append(append([]int{}, r.Path...), L.crMask)}))
+					if a, ok := mm.Load(fold.Ref{O: r.O, Path: append(append([]int{}, r.Path...), L.crMask)}).(fold.Arr); ok {
+						np.crMask = "[" + strings.Join(laneNamesPlain(a.E), ",") + "]"
+					}
 					np.crPos = fold.Show(mm.Load(fold.Ref{O: r.O, Path: append(append([]int{}, r.Path...), L.crPos)}))
 				}
 				if t, ok := p.Ret.(fold.Tuple); ok && len(t) == 2 {
@@ -401,15 +439,13 @@ func readerNextFrameRules(c *Ctx, prop string) {
 		c.verdict(base, base+"/fold", pos, und, "")
 		return
 	}
-	rawRef := fmt.Sprintf("iface(*LimitedReader:&reader#%%d.%d)", L.raw)
-	_ = rawRef
-	isRawIface := func(s string) bool {
-		return strings.HasPrefix(s, "iface(*LimitedReader:&reader#") && strings.HasSuffix(s, fmt.Sprintf(".%d)", L.raw))
+	isRaw := func(np nfPath, v fold.Val) bool { return refTo(v, np.recv, L.raw) }
+	isUTF8 := func(np nfPath, v fold.Val) bool { return refTo(v, np.recv, L.utf8) }
+	isCR := func(np nfPath, v fold.Val) bool {
+		o, ok := isObjRef(v)
+		co, ok2 := isObjRef(np.crV)
+		return ok && ok2 && o == co
 	}
-	isUTF8Iface := func(s string) bool {
-		return strings.HasPrefix(s, "iface(*UTF8Reader:&reader#") && strings.HasSuffix(s, fmt.Sprintf(".%d)", L.utf8))
-	}
-	isCRIface := func(s string) bool { return strings.HasPrefix(s, "iface(*CipherReader:&") }
 	stateOf := func(in nfIn) int64 {
 		s := int64(in.side)
 		if in.frag {
@@ -602,7 +638,7 @@ func readerNextFrameRules(c *Ctx, prop string) {
 				continue
 			}
 			if np.in.masked {
-				if !strings.HasPrefix(np.cr, "&") || !isRawIface(np.crR) || np.crMask != "[m0,m1,m2,m3]" || np.crPos != "0" {
+				if !strings.HasPrefix(np.cr, "&") || !isRaw(np, np.crRV) || np.crMask != "[m0,m1,m2,m3]" || np.crPos != "0" {
 					problems = append(problems, fmt.Sprintf("masked frame: cipher reader = {r:%s mask:%s pos:%s}, want {&r.raw, hdr.Mask, 0} [%s]", np.crR, np.crMask, np.crPos, np.in))
 					continue
 				}
@@ -610,21 +646,21 @@ func readerNextFrameRules(c *Ctx, prop string) {
 			if control(np.in.op) && np.in.frag {
 				// handed to OnIntermediate: must be the (unmasking) frame reader
 				for _, e := range np.p.Calls("OnIntermediate") {
-					fr := fold.Show(e.Args[1])
-					if np.in.masked && !isCRIface(fr) || !np.in.masked && !isRawIface(fr) {
-						problems = append(problems, "OnIntermediate is handed "+fr+" instead of the frame's (unmasking) reader")
+					fr := e.Args[1]
+					if np.in.masked && !isCR(np, fr) || !np.in.masked && !isRaw(np, fr) {
+						problems = append(problems, "OnIntermediate is handed "+fold.Show(fr)+" instead of the frame's (unmasking) reader")
 					}
 				}
 				okc++
 				continue
 			}
 			wantUTF8 := np.in.checkUTF8 && (np.in.op == 1 || (np.in.frag && np.in.prevText))
-			inner := np.frame
+			inner := np.frameV
 			if wantUTF8 {
-				inner = np.utf8Source
+				inner = np.utf8SourceV
 			}
-			if np.in.masked && !isCRIface(inner) || !np.in.masked && !isRawIface(inner) {
-				problems = append(problems, fmt.Sprintf("frame reader is %s (masked=%v) [%s]", inner, np.in.masked, np.in))
+			if np.in.masked && !isCR(np, inner) || !np.in.masked && !isRaw(np, inner) {
+				problems = append(problems, fmt.Sprintf("frame reader is %s (masked=%v) [%s]", fold.Show(inner), np.in.masked, np.in))
 				continue
 			}
 			okc++
@@ -647,7 +683,7 @@ func readerNextFrameRules(c *Ctx, prop string) {
 				continue
 			}
 			wantUTF8 := np.in.checkUTF8 && (np.in.op == 1 || (np.in.frag && np.in.op == 0 && np.in.prevText))
-			got := isUTF8Iface(np.frame)
+			got := isUTF8(np, np.frameV)
 			if wantUTF8 != got {
 				problems = append(problems, fmt.Sprintf("validating reader installed=%v, want %v [%s]", got, wantUTF8, np.in))
 			}
